@@ -1029,6 +1029,9 @@ pub trait Revertable {
 pub struct Checkpoint {
     /// An index interpreted by a given `Revertable` implementation to revert to a prior point.
     pub index: usize,
+    /// Number of fact writes that were pending (not yet attached to a command) when the
+    /// checkpoint was created. Reverting keeps exactly those.
+    pub pending: usize,
 }
 
 /// Can be queried to look up facts.
